@@ -6,6 +6,16 @@ re-extracted from the C source on every check (see tools/gen_params.py).
                               (s + sizeof(var) - 1) & ~(sizeof(var) - 1)            ->  the same
                               s & ~(sizeof(var) - 1)                                ->  (s / 8) * 8
                             any other text: no definition (broken obligation)
+  table_grow_trigger, table_grow_target, table_shrink_trigger, table_shrink_target
+                            the resize POLICY of Table_Resize_More / Table_Resize_Less as functions of nitems:
+                              More:  if (Ideal(grow_trigger n) > nslots)   Rehash(t, Ideal(grow_target n))
+                              Less:  if (Ideal(shrink_trigger n) < nslots) Rehash(t, Ideal(shrink_target n))
+                            read from bodies of the form  { size_t X = Table_Ideal_Size(E); ... size_t old = t->nslots;
+                            if (X > old) { Table_Rehash(t, Y); } }  where E is an expression over t->nitems, integer
+                            literals, + * / and parentheses (size_t arithmetic = nat arithmetic below overflow), the
+                            comparison may be written either way round, and X, Y may be inline calls.  The theorems need
+                            only  n <= grow_trigger n, n <= grow_target n, n <= shrink_target n  (re-proved by lia on the
+                            generated expressions); the shrink trigger is free.  Anything else: no definition.
   table_layout_shape_ok     Table_Step / Table_Key / Table_Val / Table_Key_Hash still compute
                               step = 8 + header + ksize + header + vsize, key at 8 + header,
                               value at 8 + header + ksize + header, hash word at 0; and Table_New / Table_Assign
@@ -18,8 +28,68 @@ def norm(s):
     return re.sub(r'\s+', '', s or '')
 
 
+def policy(body, grow):
+    """-> (trigger expr, target expr) as Coq text over n, or None"""
+    b = norm(body)
+    if not (b.startswith('{') and b.endswith('}')):
+        return None
+    b = re.sub(r'/\*.*?\*/', '', b[1:-1])
+    stmts = [x for x in b.split(';') if x]
+    env, old, cond = {}, None, None
+    def expr(e):
+        e = e.replace('t->nitems', 'n')
+        if not re.fullmatch(r'[n0-9+*/()]+', e) or re.search(r'\dn|n\d|nn|\(\)', e):
+            return None
+        if e.count('(') != e.count(')'):
+            return None
+        return '(' + re.sub(r'([+*/])', r' \1 ', e) + ')'
+    def size(x):
+        if x in env:
+            return env[x]
+        m = re.fullmatch(r'Table_Ideal_Size\((.+)\)', x)
+        return expr(m.group(1)) if m else None
+    for i, st in enumerate(stmts):
+        m = re.fullmatch(r'size_t(\w+)=Table_Ideal_Size\((.+)\)', st)
+        if m:
+            e = expr(m.group(2))
+            if e is None:
+                return None
+            env[m.group(1)] = e
+            continue
+        m = re.fullmatch(r'size_t(\w+)=t->nslots', st)
+        if m:
+            old = m.group(1)
+            continue
+        cond = ';'.join(stmts[i:])
+        break
+    if cond is None:
+        return None
+    o = re.escape(old) if old else 't->nslots'
+    alt = '(?:%s|t->nslots)' % o if old else 't->nslots'
+    X = r'(\w+|Table_Ideal_Size\([^;{}]+?\))'
+    gt, lt = ('>', '<') if grow else ('<', '>')
+    m = re.fullmatch(r'if\(%s%s%s\)\{Table_Rehash\(t,%s\);\}' % (X, re.escape(gt), alt, X), cond)
+    if m:
+        a, y = m.group(1), m.group(2)
+    else:
+        m = re.fullmatch(r'if\(%s%s%s\)\{Table_Rehash\(t,%s\);\}' % (alt, re.escape(lt), X, X), cond)
+        if not m:
+            return None
+        a, y = m.group(1), m.group(2)
+    a, y = size(a), size(y)
+    return (a, y) if a and y else None
+
+
 def generate(repo, emit, src, func_body):
     t = src('src/Table.c')
+    for fn, grow, names in (('Table_Resize_More', True, ('table_grow_trigger', 'table_grow_target')),
+                            ('Table_Resize_Less', False, ('table_shrink_trigger', 'table_shrink_target'))):
+        body = func_body(t, r'static\s+void\s+%s\s*\(\s*struct\s+Table\s*\*\s*t\s*\)\s*\{' % fn)
+        # comments must go before whitespace is squeezed
+        body = re.sub(r'/\*.*?\*/', '', body or '', flags=re.S)
+        pol = policy(body, grow)
+        for nm, e in zip(names, pol or (None, None)):
+            emit(nm, ('Definition %s (n : nat) : nat := %s.' % (nm, e)) if e else None)
     b = norm(func_body(t, r'static\s+size_t\s+Table_Size_Round\s*\(\s*size_t\s+s\s*\)\s*\{'))
     b = b.replace('sizeof(var)', 'W')
     up = 'Definition table_size_round (s : nat) : nat := ((s + 8 - 1) / 8) * 8.   (* source: %s *)'
